@@ -132,7 +132,7 @@ pub fn gen_segment(d: &Data, r: &mut Rng) -> String {
     s
 }
 
-const DENSE: [&str; 16] = ["p", "t", "k", "b", "d", "ɡ", "s", "z", "m", "n", "l", "r", "a", "i", "u", "e"];
+const DENSE: [&str; 20] = ["p", "t", "k", "b", "d", "ɡ", "s", "z", "m", "n", "l", "r", "a", "i", "u", "e", "t͡s", "ɬ", "ɲ", "t͡ɬ"];
 
 /// short words over a small inventory: rules match often, and often run off the end of the word
 pub fn dense_word(r: &mut Rng) -> String {
@@ -329,6 +329,28 @@ pub fn gen_aliases(r: &mut Rng) -> (Vec<String>, Vec<String>) {
     (into, from)
 }
 
+/// alternative spellings the word lexer documents for the same segment / mark
+const RESPELL: [(&str, &str); 8] = [("t͡s", "¢"), ("t͡ɬ", "ƛ"), ("d͡ɮ", "λ"), ("ɬ", "ł"), ("ɲ", "ñ"), ("ɡ", "g"), ("ː", ":"), ("ˈ", "'")];
+
+/// the same word written differently (americanist letters, ASCII length/stress marks), if it
+/// contains anything that has a second spelling
+pub fn respell(w: &str, r: &mut Rng) -> Option<String> {
+    let mut cands: Vec<String> = Vec::new();
+    for (a, b) in RESPELL.iter() {
+        if w.contains(a) {
+            cands.push(w.replace(a, b));
+        }
+        if w.contains(b) {
+            cands.push(w.replace(b, a));
+        }
+    }
+    if cands.is_empty() {
+        None
+    } else {
+        Some(r.pick(&cands).clone())
+    }
+}
+
 /// A sampled call for C01.
 pub fn gen_call(d: &Data, r: &mut Rng) -> Call {
     let kind = match r.below(10) {
@@ -348,6 +370,20 @@ pub fn gen_call(d: &Data, r: &mut Rng) -> Call {
     if kind != "run" && r.chance(1, 3) {
         // a phrase of several words
         words[0] = format!("{} {}", words[0], gen_word(d, r));
+    }
+    if kind == "run" {
+        // word lists contain repeats, and the same word in another spelling
+        if r.chance(1, 6) {
+            let w = r.pick(&words).clone();
+            words.push(w);
+        }
+        if r.chance(1, 3) {
+            let k = r.below(words.len());
+            if let Some(w2) = respell(&words[k], r) {
+                let at = r.below(words.len() + 1);
+                words.insert(at, w2);
+            }
+        }
     }
     let (into, from) = if r.chance(1, 4) { gen_aliases(r) } else { (vec![], vec![]) };
     let from = if kind == "run" { from } else { vec![] };
